@@ -25,6 +25,10 @@ var xssSeeds = []string{"<script>alert(1);</script>", "><script>alert(1);</scrip
 	"<HTML xmlns:xss><?import namespace=\"xss\" implementation=\"%(htc)s\"><xss:xss>XSS</xss:xss></HTML>", "<SPAN DATASRC=\"#xss\" DATAFLD=\"B\" DATAFORMATAS=\"HTML\"></SPAN>",
 	"javascript:/*--></title></style></textarea></script></xmp><svg/onload='+/\"/+/onmouseover=1/+/[*/[]/+alert(1)//'>"}
 
+// namedRefs: HTML named character references (the decoder of the reference algorithm handles numeric ones only)
+var namedRefs = []string{"&Tab;", "&NewLine;", "&colon;", "&lpar;", "&rpar;", "&amp;", "&lt;", "&gt;", "&quot;", "&apos;", "&nbsp;",
+	"&sol;", "&semi;", "&num;", "&excl;", "&equals;", "&tab;", "&newline;", "&Tab", "&colon", "&AMP;", "&LT;", "&GT;", "&zwnj;", "&shy;"}
+
 type genCfg struct {
 	stream  string
 	tier    string
@@ -231,6 +235,9 @@ func encodeScheme(rng *rand.Rand) string {
 		}
 		if rng.Intn(6) == 0 {
 			sb.WriteByte([]byte{0, 10}[rng.Intn(2)])
+		} else if rng.Intn(24) == 0 {
+			// a named character reference: the reference algorithm knows none, so it stays literal text
+			sb.WriteString(namedRefs[rng.Intn(len(namedRefs))])
 		}
 	}
 	sb.WriteString([]string{"", "alert(1)", "x", ";", "&#", "&#x"}[rng.Intn(6)])
